@@ -14,7 +14,8 @@ class P(vlib.Prop):
             "resolved again (each per-architecture relock also by Model/Resolver.v: the ORDERED install list must equal the model's, which is a function of its inputs since fix c03e0c0); cli stage: `apko lock` (lock.json entries judged against the package files: ranges, sha1/sha256 recomputed over the "
             "recorded ranges) and `apko build` with and without --lockfile (installed database and image manifest; the order of lock.json and the install order of the unlocked build are "
             "compared with Model/Resolver.v on the request list resp. on the lock list of LockImageConfiguration - Model/LockBuild.v, the mechanism of C09-F5, corpus scenario install-order-of-lock-list-differs), including a repository that "
-            "publishes a newer version after locking. A case is non-trivial when it has >= 2 architectures and a non-empty request list; "
+            "publishes a newer version after locking; wave 3: a lock file that outlives its configuration (built under five spellings of the configuration's path before and after an edit), "
+            "packages with control scripts (members of lib/apk/db/scripts.tar of the locked and the unlocked image), and an image on top of the repository's base image with a rebuilt package in the repository. A case is non-trivial when it has >= 2 architectures and a non-empty request list; "
             "distinct = distinct case terms.")
     stages = (
         dict(name="unify", cmd="c09", args=lambda t, s: ["-stage", "unify"]),
